@@ -31,9 +31,22 @@ func WriterIDs(w, nIDs int) []string {
 }
 
 // WriterBatch returns batch k (k ≥ 1) of writer w.
-func WriterBatch(seed uint64, w, k, nIDs int) Batch {
+func WriterBatch(seed uint64, w, k, nIDs int) Batch { return WriterBatchOpt(seed, w, k, nIDs, false) }
+
+// WriterBatchOpt is WriterBatch with an option: with wipes, about every fifth
+// batch only deletes (the marker and every document of the writer) and advances
+// the seq key, so it creates no new segment and can empty the newest ones.
+// (Not for workloads that read the version from the marker document.)
+func WriterBatchOpt(seed uint64, w, k, nIDs int, wipes bool) Batch {
 	g := rng.New(seed).Derive(fmt.Sprintf("writer-%d-batch-%d", w, k))
 	var b Batch
+	if wipes && IsWipe(seed, w, k) {
+		for _, id := range WriterIDs(w, nIDs) {
+			b.Ops = append(b.Ops, Op{Kind: "delete", ID: id})
+		}
+		b.Ops = append(b.Ops, Op{Kind: "setint", ID: SeqKey(w), Val: strconv.Itoa(k)})
+		return b
+	}
 	b.Ops = append(b.Ops, Op{Kind: "index", ID: MarkerID(w), Doc: &Doc{ID: MarkerID(w), Fields: map[string]any{
 		"ver": float64(k), "tag": "marker",
 	}}})
@@ -52,11 +65,18 @@ func WriterBatch(seed uint64, w, k, nIDs int) Batch {
 	return b
 }
 
+// IsWipe tells whether batch k of writer w is a delete-only batch when wipes are on.
+func IsWipe(seed uint64, w, k int) bool {
+	return rng.New(seed).Derive(fmt.Sprintf("writer-%d-wipe-%d", w, k)).Chance(1, 5)
+}
+
 // WriterModel returns LWW_w(k): the state of writer w's ids after its batches 1..k.
-func WriterModel(seed uint64, w, k, nIDs int) *LWW {
+func WriterModel(seed uint64, w, k, nIDs int) *LWW { return WriterModelOpt(seed, w, k, nIDs, false) }
+
+func WriterModelOpt(seed uint64, w, k, nIDs int, wipes bool) *LWW {
 	m := NewLWW()
 	for i := 1; i <= k; i++ {
-		m.Apply(WriterBatch(seed, w, i, nIDs))
+		m.Apply(WriterBatchOpt(seed, w, i, nIDs, wipes))
 	}
 	return m
 }
